@@ -20,7 +20,10 @@ import (
 	"verifharness/internal/vclock"
 )
 
-type prngReader struct{ r *rand.Rand; zero bool }
+type prngReader struct {
+	r    *rand.Rand
+	zero bool
+}
 
 func (p *prngReader) Read(b []byte) (int, error) {
 	for i := range b {
